@@ -260,4 +260,3 @@ func TestCrashImages(t *testing.T) {
 		}
 	})
 }
-
